@@ -165,6 +165,10 @@ func Stub(target string, repl interface{}) {
 // RunGoroutines runs every goroutine queued by `go` statements to completion, oldest first (engine only; natively a no-op).
 func RunGoroutines() int { return 0 }
 
+// RunGoroutine runs the i-th (0-based) not yet run goroutine queued by a `go` statement to completion
+// (engine only; natively goroutines run by themselves).
+func RunGoroutine(i int) {}
+
 // NoFork runs f in a region where any symbolic branch is an engine error (used to prove a callee is branch-free).
 func NoFork(f func()) { f() }
 
